@@ -1,4 +1,4 @@
 SPECIFICATION TraceSpec
-INVARIANT I10
+INVARIANT J10
 POSTCONDITION TraceAccepted
 CHECK_DEADLOCK FALSE
